@@ -580,6 +580,12 @@ class DLC(utils.EventEmitter):
         # TODO: handle all states
         self.send_frame(RFCOMM_Frame.ua(c_r=1 - self.c_r, dlci=self.dlci))
 
+        # The peer closed the DLC: mirror what the closing side does when it gets the UA
+        if self.state in (DLC.State.CONNECTING, DLC.State.CONNECTED):
+            self.change_state(DLC.State.DISCONNECTED)
+            self.multiplexer.on_dlc_disconnection(self)
+            self.emit(self.EVENT_CLOSE)
+
     def on_uih_frame(self, frame: RFCOMM_Frame) -> None:
         data = frame.information
         if frame.p_f == 1:
